@@ -225,6 +225,11 @@ def parse_tables(rd):
     for u in UNIT_ORDER:
         m = one(r"Unit::%s => ([^,]+)," % u, fsz, "resolve_font_size arm " + u)
         t['fs'][u] = unit_expr(m.group(1).strip(), "resolve_font_size " + u, ('dpi',))
+    for u, var in (('Em', 'font_size'), ('Ex', 'font_size')):
+        m = one(r"Unit::%s => ([^,]+)," % u, fsz, "resolve_font_size arm " + u)
+        t['fs'][u] = unit_expr(m.group(1).strip(), "resolve_font_size " + u, ('font_size',))
+    m = one(r"Unit::Percent => \{\s*(length\.number as f32 \* font_size \* [\d.]+)\s*\}", fsz, "resolve_font_size arm Percent")
+    t['fs']['Percent'] = unit_expr(m.group(1).replace('length.number as f32', 'n'), "resolve_font_size Percent", ('font_size',))
     return t
 
 
@@ -274,6 +279,9 @@ def render(t, header):
     o.append("\n(* units.rs: resolve_font_size absolute-unit arms *)")
     for u in UNIT_ORDER:
         o.append("Definition fs_%s (n dpi : Q) : Q := %s." % (u, t['fs'][u]))
+    o.append("(* font-relative arms (font_size = the font size resolved so far, i.e. the parent's) *)")
+    for u in ('Em', 'Ex', 'Percent'):
+        o.append("Definition fs_%s (n font_size : Q) : Q := %s." % (u, t['fs'][u]))
     return "\n".join(o) + "\n"
 
 
